@@ -8,11 +8,13 @@ the explorer (decision trail, DFS by re-execution).
 """
 import math
 import os
+import sys
 import time
 import fractions
 import z3
 
 Fraction = fractions.Fraction
+sys.setrecursionlimit(max(sys.getrecursionlimit(), 20000))
 
 
 class NotEncodable(Exception):
